@@ -8,31 +8,37 @@ def part(bin, sub, q=1, t=16, tq=120, tt=1800, tiers=("quick", "thorough"), args
 
 PLAN = {
     "C01": {
+        "pkg": ["vts", "vh"],
         "level": "model_checking",
         "parts": [part("mc_proto", "c01", q=4, t=16), part("mc_server", "c01", q=16, t=16, tq=200, tt=2400)],
         "assumptions": ["in-memory reader/writer never fail", "test service TS is the only registered interface"],
     },
     "C02": {
+        "pkg": ["vts", "vh"],
         "level": "model_checking",
         "parts": [part("mc_proto", "c02", q=16, t=16), part("mc_server", "c02", q=16, t=16, tq=200, tt=2400)],
         "assumptions": ["caller keeps tail ++ unread remainder of its own reader between handle() calls"],
     },
     "C03": {
+        "pkg": ["vts", "vh"],
         "level": "exploration",
         "parts": [part("mc_proto", "c03", q=8, t=16)],
         "assumptions": ["hand-written recording interfaces reply {who: name}; generated org.verif.t registered in every configuration"],
     },
     "C04": {
+        "pkg": ["vts", "vh"],
         "level": "model_checking",
         "parts": [part("mc_proto", "c04", q=4, t=16), part("mc_client", "c04", q=1, t=4)],
         "assumptions": [],
     },
     "C05": {
+        "pkg": ["vts", "vh"],
         "level": "model_checking",
         "parts": [part("mc_proto", "c05", q=4, t=16), part("mc_client", "c05", q=1, t=1)],
         "assumptions": ["for a oneway request a continues-without-more reply attempt may return Ok or the mismatch error (nothing is written either way)"],
     },
     "C06": {
+        "pkg": ["vts", "vh"],
         "level": "fault_enumeration",
         "parts": [part("mc_proto", "c06", q=16, t=16, tq=300), part("mc_server", "c06", q=16, t=16, tq=200, tt=2400)],
         "assumptions": ["serde_json is the trusted JSON parser of both service and classifier", "messages with duplicate or unknown top-level members and top-level arrays are classified 'either'"],
@@ -43,16 +49,19 @@ PLAN = {
         "assumptions": ["Some(null) == absent for optional members (the property's own equivalence)"],
     },
     "C14": {
+        "pkg": ["vts", "vh"],
         "level": "model_checking",
         "parts": [part("mc_server", "c14", q=16, t=16, tq=200, tt=2400)],
         "assumptions": ["idle workers are interchangeable (any parked worker may take the next queued message)", "jobs are long-lived connections that end when the environment says so"],
     },
     "C13": {
+        "pkg": ["vts", "vh"],
         "level": "model_checking",
         "parts": [part("mc_server", "c13", q=16, t=16, tq=200, tt=2400)],
         "assumptions": ["in-memory streams stand in for sockets (accept hook); writes are not scheduling points (each connection writes only to its own buffer)"],
     },
     "C15": {
+        "pkg": ["vts", "vh"],
         "level": "model_checking",
         "parts": [part("mc_server", "c15", q=16, t=16, tq=200, tt=2400)],
         "assumptions": ["virtual clock: an accept timeout advances time by exactly the requested timeout", "Listener::new binds a real socket path per execution so the unlink clause is observed on the real file system"],
@@ -82,5 +91,16 @@ PLAN = {
         "pkg": "vcert",
         "parts": [part("mc_cert", "c19", q=8, t=16, tq=300, tt=2400)],
         "assumptions": ["each step is atomic under the service's write lock, so step-level interleaving covers concurrent clients", "client ids are derived from Instant::now(): two clients starting within the clock resolution could collide (not explored)"],
+    },
+    "C08": {
+        "level": "exploration",
+        "parts": [part("genlab", "c08", q=1, t=1, tq=900, tt=3600)],
+        "assumptions": ["the typed glue spells the generated type names (<Method>_Args_<field>, ...) the way a user implementing the server trait has to", "absent == null for optional members"],
+    },
+    "C09": {
+        "level": "exploration",
+        "needs_repo_bins": ["varlink_generator"],
+        "parts": [part("genlab", "c09", q=1, t=1, tq=900, tt=3600)],
+        "assumptions": ["rustc's diagnostics are attributed to a module through the file name of the span (or of its macro expansion)"],
     },
 }
